@@ -63,6 +63,12 @@ pub enum Ev {
     EnableAll,
     Other,
     Reconnect,
+    // --- used by C13 only ---
+    /// broadcast RECORD_CURRENT_TIME to 0xFFFF (0: confirm optional), 0xFFFE (1: mandatory), 0xFFFD (2: not required)
+    Broadcast(u8),
+    WriteRestart(bool),
+    /// toggle need_time / local_control / device_trouble / config_corrupt
+    AppIin(u8),
 }
 
 #[derive(Copy, Clone, Debug, PartialEq, Eq)]
@@ -91,6 +97,11 @@ pub struct Awaited {
     pub rows: Vec<u64>,
     pub t_sent: u64,
     pub raw: Vec<u8>,
+    /// the response reported the BROADCAST indication
+    pub bcast: bool,
+    /// transmitted while an unsolicited response was awaited: the outstation answers such
+    /// requests without entering a solicited confirm wait, so a confirm of it may be ignored
+    pub weak: bool,
 }
 
 /// a decoded event object
@@ -170,6 +181,62 @@ pub fn decode_events(r: &app::Resp) -> Result<Vec<EvObj>, String> {
     Ok(out)
 }
 
+/// reference model of the internal indications (C13)
+#[derive(Clone, Debug)]
+pub struct IinModel {
+    pub restart: bool,
+    pub overflow: bool,
+    pub bcast: Option<u8>,
+    pub need_time: bool,
+    pub local_control: bool,
+    pub device_trouble: bool,
+    pub config_corrupt: bool,
+    /// per-type event capacity
+    pub cap: usize,
+    pub checked: usize,
+    /// effects of requests the driver sent that take hold when the outstation processes them:
+    /// Some(mode) = broadcast received, None = restart bit written to 0
+    pub pending: Vec<Option<u8>>,
+    /// a solicited CONFIRM arrived while an unsolicited response was awaited and a
+    /// confirm-mandatory broadcast was pending: the library may or may not count it
+    pub bcast_dont_care: bool,
+    /// the pending confirm-mandatory broadcast has been reported in at least one response
+    pub bcast_reported: bool,
+}
+
+impl IinModel {
+    /// the outstation processed the next request whose effect is pending
+    fn apply_pending(&mut self, broadcast: bool) {
+        if let Some(pos) = self.pending.iter().position(|p| p.is_some() == broadcast) {
+            match self.pending.remove(pos) {
+                Some(mode) => {
+                    self.bcast = Some(mode);
+                    self.bcast_dont_care = false;
+                    self.bcast_reported = false;
+                }
+                None => self.restart = false,
+            }
+        }
+    }
+
+    pub fn new(cap: usize) -> Self {
+        Self {
+            restart: true,
+            overflow: false,
+            bcast: None,
+            need_time: false,
+            local_control: false,
+            device_trouble: false,
+            config_corrupt: false,
+            cap,
+            checked: 0,
+            pending: Vec::new(),
+            bcast_dont_care: false,
+            bcast_reported: false,
+        }
+    }
+}
+
 /// the event ledger: reference model of C03 (and the basis of C13's class/overflow bits)
 #[derive(Clone, Debug, Default)]
 pub struct Ledger {
@@ -178,6 +245,7 @@ pub struct Ledger {
     pub uns: Option<Awaited>,
     pub transmissions: usize,
     pub releases: usize,
+    pub iin: Option<IinModel>,
 }
 
 impl Ledger {
@@ -198,6 +266,9 @@ impl Ledger {
         match info {
             UpdateInfo::Created(id) => add(id, &mut self.rows),
             UpdateInfo::Overflow { created, discarded } => {
+                if let Some(m) = &mut self.iin {
+                    m.overflow = true;
+                }
                 if let Some(r) = self.rows.iter_mut().find(|r| r.id == discarded) {
                     r.state = RowState::Discarded;
                 }
@@ -243,13 +314,15 @@ impl Ledger {
         step: &Step,
         confirm: Option<(bool, u8)>,
         new_request: bool,
-        disable: bool,
+        disable: Option<u8>,
         reconnect: bool,
         selected_classes: Option<[bool; 3]>,
     ) -> Option<Violation> {
         let now = step.now;
         // environment action first
         let mut expected_release: Vec<u64> = Vec::new();
+        let mut valid_confirm: Option<bool> = None;
+        let mut weak_confirm = false;
         let mut confirm_desc = "no-confirm";
         if reconnect {
             self.sol = None;
@@ -260,8 +333,14 @@ impl Ledger {
             // expired by Timeout events, which end in `expire`
             let slot = if uns { &mut self.uns } else { &mut self.sol };
             match slot {
+                Some(a) if a.seq == seq && a.weak => {
+                    weak_confirm = true;
+                    *slot = None;
+                    confirm_desc = "confirm-of-response-sent-during-unsolicited-wait";
+                }
                 Some(a) if a.seq == seq => {
                     expected_release = a.rows.clone();
+                    valid_confirm = Some(a.bcast);
                     *slot = None;
                     confirm_desc = "matching-confirm";
                 }
@@ -272,9 +351,10 @@ impl Ledger {
         if new_request {
             self.sol = None;
         }
-        if disable {
-            self.uns = None;
-        }
+        // DISABLE_UNSOLICITED cancels the unsolicited series at the moment the outstation
+        // processes it, i.e. when its response is transmitted (see the loop below)
+        let mut pending_disable = disable;
+        let mut maybe_in_flight: Vec<u64> = Vec::new();
 
         // R1 / R2: releases observed in this step
         let cleared: Vec<u64> = step
@@ -344,10 +424,69 @@ impl Ledger {
             }
         }
 
+        // C13: a confirmation that leaves every type below capacity ends the overflow indication;
+        // a confirm-mandatory broadcast is reported until confirmed
+        if let Some(reported_bcast) = valid_confirm {
+            let mut ty = [0usize; 8];
+            for r in self.held() {
+                ty[r.typ as usize] += 1;
+            }
+            if let Some(m) = &mut self.iin {
+                if ty.iter().all(|n| *n < m.cap) {
+                    m.overflow = false;
+                }
+                let _ = reported_bcast;
+                if m.bcast == Some(1) && m.bcast_reported {
+                    m.bcast = None;
+                    m.bcast_reported = false;
+                }
+            }
+        }
+
+        // a solicited CONFIRM during an unsolicited wait, or of a response that was sent during
+        // one, may or may not confirm a mandatory broadcast
+        if let Some((false, _)) = confirm {
+            if valid_confirm.is_none() && (self.uns.is_some() || weak_confirm) {
+                if let Some(m) = &mut self.iin {
+                    if m.bcast == Some(1) {
+                        m.bcast_dont_care = true;
+                    }
+                }
+            }
+        }
+
+        // callbacks that mark the moment a pending effect takes hold, in observation order
+        let mut effects: Vec<(u64, bool)> = Vec::new();
+        for (c, o) in step.cbs.iter().zip(step.cb_ords.iter()) {
+            match c {
+                Cb::Broadcast(_) => effects.push((*o, true)),
+                Cb::ClearRestartIin => effects.push((*o, false)),
+                _ => {}
+            }
+        }
+        let mut next_effect = 0usize;
+
         // transmissions of this step
         for t in &step.out {
-            let crate::osim::Tx::Frag { t: t_sent, data, .. } = t else { continue };
+            let crate::osim::Tx::Frag { t: t_sent, ord, data, .. } = t else { continue };
+            while next_effect < effects.len() && effects[next_effect].0 < *ord {
+                if let Some(m) = &mut self.iin {
+                    m.apply_pending(effects[next_effect].1);
+                }
+                next_effect += 1;
+            }
             let Some(r) = app::Resp::parse(data) else { continue };
+            let mut disable_response = false;
+            if let Some(dseq) = pending_disable {
+                if !r.uns() && r.seq() == dseq {
+                    pending_disable = None;
+                    disable_response = true;
+                    if let Some(a) = self.uns.take() {
+                        // for this very response both views are accepted
+                        maybe_in_flight = a.rows;
+                    }
+                }
+            }
             // a byte-identical re-send (unsolicited retry, echo to a repeated READ) of the response
             // still awaiting confirmation only restarts its timer
             {
@@ -427,13 +566,119 @@ impl Ledger {
             if !evs.is_empty() {
                 self.transmissions += 1;
             }
-            let aw = Awaited { seq: r.seq(), rows: ids, t_sent: *t_sent, raw: r.raw.clone() };
+            // C13: indications of a first transmission
+            if self.iin.is_some() {
+                let in_flight: Vec<u64> = self
+                    .sol
+                    .iter()
+                    .chain(self.uns.iter())
+                    .filter(|a| a.t_sent + TO > *t_sent)
+                    .flat_map(|a| a.rows.iter().copied())
+                    .chain(ids.iter().copied())
+                    .collect();
+                let mut e1 = 0u8;
+                let mut class_dont_care = 0u8;
+                for k in 1..=3u8 {
+                    let upper = self.held().any(|row| row.class == k && !in_flight.contains(&row.id));
+                    let lower = self
+                        .held()
+                        .any(|row| row.class == k && !in_flight.contains(&row.id) && !maybe_in_flight.contains(&row.id));
+                    if upper {
+                        e1 |= 1 << k;
+                    }
+                    if upper != lower {
+                        class_dont_care |= 1 << k;
+                    }
+                }
+                maybe_in_flight.clear();
+                let m = self.iin.as_mut().unwrap();
+                if m.restart {
+                    e1 |= app::iin1::RESTART;
+                }
+                if m.bcast.is_some() {
+                    e1 |= app::iin1::BROADCAST;
+                }
+                if m.need_time {
+                    e1 |= app::iin1::NEED_TIME;
+                }
+                if m.local_control {
+                    e1 |= app::iin1::LOCAL_CONTROL;
+                }
+                if m.device_trouble {
+                    e1 |= app::iin1::DEVICE_TROUBLE;
+                }
+                let mut e2 = 0u8;
+                if m.overflow {
+                    e2 |= app::iin2::EVENT_BUFFER_OVERFLOW;
+                }
+                if m.config_corrupt {
+                    e2 |= app::iin2::CONFIG_CORRUPT;
+                }
+                m.checked += 1;
+                let got2 = r.iin2 & (app::iin2::EVENT_BUFFER_OVERFLOW | app::iin2::CONFIG_CORRUPT);
+                let mask1 = (if m.bcast_dont_care { !app::iin1::BROADCAST } else { 0xFF }) & !class_dont_care;
+                if m.bcast_dont_care && r.iin1 & app::iin1::BROADCAST == 0 {
+                    // the library counted the stray confirm: the broadcast is no longer pending
+                    m.bcast = None;
+                    m.bcast_dont_care = false;
+                }
+                if (r.iin1 ^ e1) & mask1 != 0 || got2 != e2 {
+                    let d1 = (r.iin1 ^ e1) & mask1;
+                    let d2 = got2 ^ e2;
+                    let mut names = Vec::new();
+                    for (bit, n) in [(0x01u8, "broadcast"), (0x02, "class1"), (0x04, "class2"), (0x08, "class3"), (0x10, "need-time"), (0x20, "local-control"), (0x40, "device-trouble"), (0x80, "restart")] {
+                        if d1 & bit != 0 {
+                            names.push(format!("{n}={}", (r.iin1 & bit != 0) as u8));
+                        }
+                    }
+                    for (bit, n) in [(0x08u8, "overflow"), (0x20, "config-corrupt")] {
+                        if d2 & bit != 0 {
+                            names.push(format!("{n}={}", (r.iin2 & bit != 0) as u8));
+                        }
+                    }
+                    return Some(Violation::new(
+                        "C13.I1",
+                        format!("wrong-indication:{}", names.join(",")),
+                        format!("response {} : IIN1={:02X} IIN2={:02X}, expected IIN1={:02X} IIN2(masked)={:02X}", app::hex(&r.raw[..4]), r.iin1, r.iin2, e1, e2),
+                    ));
+                }
+                // an optional / not-required broadcast is reported once
+                if m.bcast.is_some() && m.bcast != Some(1) {
+                    m.bcast = None;
+                }
+                if m.bcast == Some(1) {
+                    m.bcast_reported = true;
+                }
+            }
+            let weak = !r.uns() && (self.uns.as_ref().map(|a| a.t_sent + TO > *t_sent).unwrap_or(false) || disable_response);
+            let aw = Awaited {
+                seq: r.seq(),
+                rows: ids,
+                t_sent: *t_sent,
+                raw: r.raw.clone(),
+                bcast: r.iin1 & app::iin1::BROADCAST != 0,
+                weak,
+            };
             if r.uns() {
                 self.uns = Some(aw);
             } else if r.con() {
                 self.sol = Some(aw);
             } else {
                 self.sol = None;
+            }
+        }
+        if pending_disable.is_some() {
+            self.uns = None;
+        }
+        if let Some(m) = &mut self.iin {
+            while next_effect < effects.len() {
+                m.apply_pending(effects[next_effect].1);
+                next_effect += 1;
+            }
+            // fallback: whatever was sent in this step has been processed by its end
+            while !m.pending.is_empty() {
+                let b = m.pending[0].is_some();
+                m.apply_pending(b);
             }
         }
         self.expire(now);
@@ -606,10 +851,11 @@ impl Driver {
     ) -> Option<Violation> {
         let mut confirm = None;
         let mut new_request = false;
-        let mut disable = false;
+        let mut disable: Option<u8> = None;
         let mut reconnect = false;
         let mut selected = None;
         let mut sent: Option<Vec<u8>> = None;
+        let mut broadcast_dst: Option<u16> = None;
         // expectations for the confirms are taken from what was last observed
         if let Some(a) = &self.ledger.sol {
             self.sol_expected = a.seq;
@@ -663,7 +909,7 @@ impl Driver {
                     &app::class_headers(true, true, true, false),
                 ));
                 new_request = true;
-                disable = true;
+                disable = Some(self.last_seq);
             }
             Ev::EnableC1 => {
                 sent = Some(app::request(next_seq(&mut self.last_seq), fc::ENABLE_UNSOLICITED, &app::hdr_all(60, 2)));
@@ -685,9 +931,50 @@ impl Driver {
                 self.sim.reconnect();
                 reconnect = true;
             }
+            Ev::Broadcast(mode) => {
+                let f = app::request(next_seq(&mut self.last_seq), fc::RECORD_CURRENT_TIME, &[]);
+                let dst = match mode {
+                    0 => 0xFFFF,
+                    1 => 0xFFFE,
+                    _ => 0xFFFD,
+                };
+                new_request = true;
+                broadcast_dst = Some(dst);
+                if let Some(m) = &mut self.ledger.iin {
+                    m.pending.push(Some(*mode));
+                }
+                sent = Some(f);
+            }
+            Ev::WriteRestart(v) => {
+                sent = Some(app::request(next_seq(&mut self.last_seq), fc::WRITE, &app::write_restart_objects(*v)));
+                new_request = true;
+                if !*v {
+                    if let Some(m) = &mut self.ledger.iin {
+                        m.pending.push(None);
+                    }
+                }
+            }
+            Ev::AppIin(k) => {
+                let mut a = self.sim.app.lock().unwrap();
+                match k {
+                    0 => a.iin.need_time = !a.iin.need_time,
+                    1 => a.iin.local_control = !a.iin.local_control,
+                    2 => a.iin.device_trouble = !a.iin.device_trouble,
+                    _ => a.iin.config_corrupt = !a.iin.config_corrupt,
+                }
+                if let Some(m) = &mut self.ledger.iin {
+                    m.need_time = a.iin.need_time;
+                    m.local_control = a.iin.local_control;
+                    m.device_trouble = a.iin.device_trouble;
+                    m.config_corrupt = a.iin.config_corrupt;
+                }
+            }
         }
         if let Some(f) = &sent {
-            self.sim.send(f);
+            match broadcast_dst {
+                Some(dst) => self.sim.send_from(crate::osim::MASTER_ADDR, dst, f),
+                None => self.sim.send(f),
+            }
         }
         let step = collect(&mut self.sim, res, obs, &format!("{ev:?}"), sent.as_deref(), transcript);
         if let Some(f) = self.sim.failure() {
@@ -737,6 +1024,12 @@ impl Driver {
         }
         None
     }
+}
+
+pub fn start_with_iin(cfg: &OCfg, unsol: bool, cto: bool) -> Driver {
+    let mut d = start(cfg, unsol, cto);
+    d.ledger.iin = Some(IinModel::new(cfg.event_buf[0] as usize));
+    d
 }
 
 pub fn start(cfg: &OCfg, unsol: bool, cto: bool) -> Driver {
